@@ -206,7 +206,7 @@ template <class T> static void check_blend(pbt::Ctx& c) {
 	T x = gen_mod<T>(c), y = gen_mod<T>(c), a;
 	switch (c.draw(6)) { case 0: a = T(0); break; case 1: a = T(1); break; case 2: a = T(0.5); break; case 3: a = (T)c.unit(); break; case 4: a = (T)c.uniform(-2.0, 3.0); break; default: a = gen_mod<T>(c); }
 	if (c.verbose) c.logf("%s x=%a y=%a a=%a", TN<T>::n(), (double)x, (double)y, (double)a);
-	const char* acls = a == T(0) ? "a=0" : (a == T(1) ? "a=1" : ((a > T(0) && a < T(1)) ? "0<a<1" : "a-outside-[0,1]"));
+	const char* acls = a == T(0) ? "a=0" : (a == T(1) ? "a=1" : ((a > T(0) && a < T(1)) ? "0<a<1" : "a-outside-0..1"));
 	c.cls(acls);
 	if (x != y && a != T(0)) c.nontrivial();
 	// mix = x*(1-a) + y*a. Rounding bound of the formula: 3u*(|x(1-a)|+|ya|) + u*|result| <= 2 eps * scale; x8.
@@ -511,7 +511,7 @@ template <class T> static void check_unary_vec(pbt::Ctx& c) {
 	glm::vec<4, int> ir = glm::iround(px); glm::vec<4, glm::uint> ur = glm::uround(px);
 	for (int i = 0; i < 4; ++i) {
 		long double d1 = (long double)px[i] - (long double)ir[i], d2 = (long double)px[i] - (long double)ur[i]; if (d1 < 0) d1 = -d1; if (d2 < 0) d2 = -d2;
-		const char* ik = px[i] == pred_half<T>() ? "x=0.5-ulp" : ((px[i] >= two_mant<T>() && px[i] < two_mant<T>() * 2 && !refc::iseven(px[i])) ? "odd-integer-in-[2^mant,2^(mant+1))" : "other");
+		const char* ik = px[i] == pred_half<T>() ? "x=0.5-ulp" : ((px[i] >= two_mant<T>() && px[i] < two_mant<T>() * 2 && !refc::iseven(px[i])) ? "odd-integer-2^mant..2^(mant+1)" : "other");
 		if (d1 > 0.5L) FAILK(c, "iround/vec4", T, ik, "lane %d: iround(%a)=%d", i, (double)px[i], ir[i]);
 		if (d2 > 0.5L) FAILK(c, "uround/vec4", T, ik, "lane %d: uround(%a)=%u", i, (double)px[i], ur[i]);
 	}
